@@ -197,8 +197,7 @@ def points(rep: Report) -> None:
     for _ in range(150):
         ns = rng.sample(names, rng.randint(0, 4))
         d = {n: rng.choice([1, 2.5, -3, 0.0, -0.125, 1e22, 7, 1e-7] + HARD) for n in ns}
-        plain = not any(keyword.iskeyword(n) or not n.isidentifier() for n in ns)
-        asc = plain and all(n.isascii() for n in ns)      # the model renders the keyword form only
+        asc = all(n.isascii() for n in ns)      # the model knows "can be written as a keyword" for ASCII names (NFKC is the identity there)
         work.append((d, b.ask(f"F0 renderpoint {wire.point(d)}") if asc else None))
     b.run()
     for d, i in work:
